@@ -173,3 +173,140 @@ Theorem C06_example :
    out r0 = out r1 /\ out r0 = out r2 /\ out r0 = out r3 /\ out r0 <> None).
 Proof. exact (conj ex_snap_bdd_ok (conj (dm_cacheok_init hash_op ex_snap 1 4) ex_apply_and_caches)). Qed.
 Print Assumptions C06_example.
+
+(** ** The other kinds: the same transparency statements for the complement-edge BDD (DD/ApplyBcdd*.v),
+    the ZBDD Boolean interface (DD/ZbddBool*.v), MTBDD arithmetic (DD/ApplyMtbdd*.v) and the caches of
+    quantification / substitution (DD/Quant*.v).  Re-exported here under C06 names; the proofs are those of
+    Props/C02.v, Props/C10.v, Props/C04.v. *)
+
+From OxiVerif Require Import DD.ApplyBcdd DD.ApplyBcddProofs DD.ApplyBcddIte DD.ApplyBcddEval.
+
+Theorem C06_bcdd_apply_op_history_independent :
+  forall lt1 lt2 C1 C2 cget1 cadd1 cget2 cadd2, lossyC cget1 cadd1 -> lossyC cget2 cadd2 ->
+  forall o s (c1 : C1) f g fuel1 s1 c1' r1,
+  BcOK s -> CacheOKC cget1 s c1 -> ref_ok s (eref f) -> ref_ok s (eref g) -> S (nlevels s) <= fuel1 ->
+  capply_op lt1 C1 cget1 cadd1 fuel1 s c1 o f g = Some (s1, c1', r1) ->
+  forall s2 (c2 : C2) fuel2, BcOK s2 -> extends s1 s2 -> CacheOKC cget2 s2 c2 -> S (nlevels s2) <= fuel2 ->
+  exists c2', capply_op lt2 C2 cget2 cadd2 fuel2 s2 c2 o f g = Some (s2, c2', r1).
+Proof. exact capply_op_history_independent. Qed.
+Print Assumptions C06_bcdd_apply_op_history_independent.
+
+
+Theorem C06_bcdd_apply_ite_history_independent :
+  forall lt1 lt2 C1 C2 cget1 cadd1 cget2 cadd2, lossyC cget1 cadd1 -> lossyC cget2 cadd2 ->
+  forall s (c1 : C1) f g h fuel1 s1 c1' r1,
+  BcOK s -> CacheOKC cget1 s c1 -> ref_ok s (eref f) -> ref_ok s (eref g) -> ref_ok s (eref h) ->
+  S (nlevels s) <= fuel1 ->
+  capply_ite lt1 C1 cget1 cadd1 fuel1 s c1 f g h = Some (s1, c1', r1) ->
+  forall s2 (c2 : C2) fuel2, BcOK s2 -> extends s1 s2 -> CacheOKC cget2 s2 c2 -> S (nlevels s2) <= fuel2 ->
+  exists c2', capply_ite lt2 C2 cget2 cadd2 fuel2 s2 c2 f g h = Some (s2, c2', r1).
+Proof. exact capply_ite_history_independent. Qed.
+Print Assumptions C06_bcdd_apply_ite_history_independent.
+
+
+From OxiVerif Require Import DD.TableExtra DD.CanonZbdd DD.FamSpec DD.FamSpecProofs DD.ZbddOps DD.ZbddOpsProofs
+  DD.ZbddSubsetProofs DD.ZbddSoundProofs DD.ZbddVars DD.ZbddVarsProofs
+  DD.ZbddBool DD.ZbddBoolProofs DD.ZbddXorProofs DD.ZbddIteProofs DD.ZbddEvalProofs.
+
+Theorem C06_zbdd_result_unique : forall s s' r d, ZbddOK s -> ZbddOK s' -> extends s s' ->
+  ref_ok s' r -> ref_ok s d ->
+  (forall c0, choice_ok s c0 -> zview_of s' r c0 = zview_of s d c0) -> r = d.
+Proof. exact zresult_unique. Qed.
+Print Assumptions C06_zbdd_result_unique.
+
+
+Theorem C06_zbdd_apply_op_history_independent :
+  forall gt C cget cadd, zlossy C cget cadd -> forall gt2 (C2 : Type) cget2 cadd2, zlossy C2 cget2 cadd2 ->
+  forall op fuel fuel2 s (c : C) (c2 : C2) f g s1 c1 r1 s2 c2' r2,
+  ZbddOK s -> zchain_ok_b s = true -> ZCacheOKB C cget s c -> ZCacheOKB C2 cget2 s c2 ->
+  ref_ok s f -> ref_ok s g -> S (nlevels s) <= fuel -> S (nlevels s) <= fuel2 ->
+  zapply_op gt C cget cadd fuel s c op f g = Some (s1, c1, r1) ->
+  zapply_op gt2 C2 cget2 cadd2 fuel2 s c2 op f g = Some (s2, c2', r2) ->
+  forall c0, choice_ok s c0 -> zview_of s1 r1 c0 = zview_of s2 r2 c0.
+Proof. exact zapply_op_history_independent. Qed.
+Print Assumptions C06_zbdd_apply_op_history_independent.
+
+
+From OxiVerif Require Import DD.ApplyMtbdd DD.ApplyMtbddBase DD.ApplyMtbddProofs DD.ApplyMtbddIte DD.ApplyMtbddRestrict
+  DD.ApplyMtbddTop.
+
+Theorem C06_mt_cache_transparent :
+  forall gt1 gt2 (C1 C2 : Type) cget1 cadd1 cget2 cadd2,
+  lossy cget1 cadd1 -> lossy cget2 cadd2 ->
+  forall op s (c1 : C1) (c2 : C2) f g fuel1 fuel2 s1 c1' r1 s2 c2' r2,
+  MtOK s -> MCacheOK cget1 s c1 -> MCacheOK cget2 s c2 -> ref_ok s f -> ref_ok s g ->
+  FUEL s <= fuel1 -> FUEL s <= fuel2 ->
+  mt_apply_bin gt1 C1 cget1 cadd1 fuel1 s c1 op f g = Some (s1, c1', r1) ->
+  mt_apply_bin gt2 C2 cget2 cadd2 fuel2 s c2 op f g = Some (s2, c2', r2) ->
+  forall c0, bchoice c0 -> semk s1 (FUEL s1) r1 c0 = semk s2 (FUEL s2) r2 c0.
+Proof. exact mt_apply_bin_cache_transparent. Qed.
+Print Assumptions C06_mt_cache_transparent.
+
+
+Theorem C06_mt_apply_bin_history_independent :
+  forall gt1 gt2 (C1 C2 : Type) cget1 cadd1 cget2 cadd2,
+  lossy cget1 cadd1 -> lossy cget2 cadd2 ->
+  forall op s (c1 : C1) f g fuel1 s1 c1' r1,
+  MtOK s -> MCacheOK cget1 s c1 -> ref_ok s f -> ref_ok s g -> FUEL s <= fuel1 ->
+  mt_apply_bin gt1 C1 cget1 cadd1 fuel1 s c1 op f g = Some (s1, c1', r1) ->
+  forall s2 (c2 : C2) fuel2, MtOK s2 -> mext s1 s2 -> MCacheOK cget2 s2 c2 -> FUEL s2 <= fuel2 ->
+  exists c2', mt_apply_bin gt2 C2 cget2 cadd2 fuel2 s2 c2 op f g = Some (s2, c2', r1).
+Proof. exact mt_apply_bin_history_independent. Qed.
+Print Assumptions C06_mt_apply_bin_history_independent.
+
+
+Theorem C06_mt_ite_history_independent :
+  forall (C1 C2 : Type) cget1 cadd1 cget2 cadd2,
+  lossy cget1 cadd1 -> lossy cget2 cadd2 ->
+  forall s (c1 : C1) f g h fuel1 s1 c1' r1,
+  MtOK s -> MCacheOK cget1 s c1 -> ref_ok s f -> ref_ok s g -> ref_ok s h -> FUEL s <= fuel1 ->
+  mt_apply_ite C1 cget1 cadd1 fuel1 s c1 f g h = Some (s1, c1', r1) ->
+  forall s2 (c2 : C2) fuel2, MtOK s2 -> mext s1 s2 -> MCacheOK cget2 s2 c2 -> FUEL s2 <= fuel2 ->
+  exists c2', mt_apply_ite C2 cget2 cadd2 fuel2 s2 c2 f g h = Some (s2, c2', r1).
+Proof. exact mt_apply_ite_history_independent. Qed.
+Print Assumptions C06_mt_ite_history_independent.
+
+
+Theorem C06_mt_restrict_history_independent :
+  forall (C1 C2 : Type) cget1 cadd1 cget2 cadd2,
+  lossy cget1 cadd1 -> lossy cget2 cadd2 ->
+  forall s (c1 : C1) f vars lits fuel1 s1 c1' r1,
+  MtOK s -> MCacheOK cget1 s c1 -> ref_ok s f -> Cube s vars lits -> FUEL s <= fuel1 ->
+  mt_restrict C1 cget1 cadd1 fuel1 s c1 f vars = Some (s1, c1', r1) ->
+  forall s2 (c2 : C2) fuel2, MtOK s2 -> mext s1 s2 -> MCacheOK cget2 s2 c2 -> FUEL s2 <= fuel2 ->
+  exists c2', mt_restrict C2 cget2 cadd2 fuel2 s2 c2 f vars = Some (s2, c2', r1).
+Proof. exact mt_restrict_history_independent. Qed.
+Print Assumptions C06_mt_restrict_history_independent.
+
+
+Theorem C06_mt_result_unique :
+  forall gt (C : Type) cget cadd, lossy cget cadd ->
+  forall op fuel s (c : C) f g s' c' r,
+  MtOK s -> MCacheOK cget s c -> ref_ok s f -> ref_ok s g -> FUEL s <= fuel ->
+  mt_apply_bin gt C cget cadd fuel s c op f g = Some (s', c', r) ->
+  forall r0, ref_ok s' r0 ->
+    (forall c0, bchoice c0 -> exists x y,
+        mvalue s f c0 x /\ mvalue s g c0 y /\ mvalue s' r0 c0 (mop_eval op x y)) ->
+    r0 = r.
+Proof. exact mt_apply_bin_result_unique. Qed.
+Print Assumptions C06_mt_result_unique.
+
+
+From OxiVerif Require Import DD.Quant DD.QuantSpecProofs DD.QuantLemmas DD.QuantProofs DD.RestrictProofs DD.SubstProofs
+  DD.ApplyQuantProofs DD.QuantTopProofs DD.QuantHistory DD.QuantExamples.
+
+Theorem C06_subst_fresh_no_entry : forall C (cget : C -> N -> list ref -> option ref) Sg s c id f r,
+  QCacheOK cget Sg s c -> Sg id = None -> cget c (code_subst id) [f] = Some r -> False.
+Proof. exact fresh_id_no_entry. Qed.
+Print Assumptions C06_subst_fresh_no_entry.
+
+
+Theorem C06_subst_register : forall C (cget : C -> N -> list ref -> option ref) Sg s c id pairs,
+  QCacheOK cget Sg s c -> Sg id = None -> QCacheOK cget (sg_add Sg id pairs) s c.
+Proof. exact qcacheok_register. Qed.
+Print Assumptions C06_subst_register.
+
+
+Theorem C06_qcacheok_empty : forall Sg s, QCacheOK ac_get Sg s [].
+Proof. exact qcacheok_empty. Qed.
+Print Assumptions C06_qcacheok_empty.
